@@ -203,6 +203,29 @@ def v_records(tier: str, rng: random.Random):
         def list(self):
             return [Root(self.d + 1), Root(self.d + 1)] if self.d < 3 else []
 
+    def observe_multi(errors, what):
+        """errors whose blamed nodes lie in several sources: every location is the true one in the node's OWN source"""
+        by_src = {}
+        problems = []
+        for e in errors:
+            nodes = [n for n in (e.nodes or []) if n.loc]
+            locs = e.locations or []
+            if len(nodes) != len(locs):
+                problems.append(("", ("locations-count", len(locs), len(nodes))))
+                continue
+            try:
+                fl = e.formatted.get("locations", [])
+                str(e)
+            except Exception as ex:  # noqa: BLE001
+                problems.append(("", ("format-raises", type(ex).__name__)))
+                continue
+            for n, l, f in zip(nodes, locs, fl):
+                body = n.loc.source.body
+                by_src.setdefault(body, []).append([n.loc.start, l.line, l.column])
+                if (f["line"], f["column"]) != (l.line, l.column):
+                    problems.append((body, ("formatted-differs", n.loc.start)))
+        return [{"src": abstract_text(body), "checks": checks, "what": what} for body, checks in by_src.items()], problems
+
     def observe(text, errors, what):
         checks = []
         fmt_problems = []
@@ -262,6 +285,34 @@ def v_records(tier: str, rng: random.Random):
         text = rng.choice(["{ f(x: ", '"d" ', "", "#c" + rng.choice(terms)]) + '"""' + body + '"""' + rng.choice([" b", "b", ") { c }", " #c" + rng.choice(terms) + "d"]) \
             + rng.choice(["", rng.choice(terms) + " e", ' """x' + rng.choice(terms) + '""" f'])
         recs.append({"src": abstract_text(text), "checks": token_checks(text, 60), "what": "tokens"})
+    # errors that blame nodes of two sources at the SAME offset whose line structure before that offset differs
+    from graphql import extend_schema
+    from graphql.utilities import concat_ast
+    from graphql.type import validate_schema
+
+    def layout(n):
+        return "".join(rng.choice([" ", "\n", "\r", "\r\n", ",", "\t"]) for _ in range(n))[:n].ljust(n)
+    for _ in range(40 if tier == "quick" else 400):
+        n = rng.randrange(2, 14)
+        p1, p2 = layout(n), layout(n)
+        try:
+            body = rng.choice(["query Q { query }", "fragment F on Query { query } query Q { ...F }", "query Q { query } query Q { boom }"])
+            da, db = parse(Source(p1 + body, "A")), parse(Source(p2 + body, "B"))
+            rs, pr = observe_multi(validate(schema, concat_ast([da, db])), "validation-multi-source")
+            recs += rs; all_fmt += pr
+            # a definition and its extension in two sources, the blamed nodes at the same offset in both
+            a_sdl, b_sdl = rng.choice([("       union U type Query { q: Int }", "extend union U @deprecated"),
+                                       ("       enum E type Query { q: E }", "extend enum E @deprecated"),
+                                       ("   union U = A type A { x: Int } type Query { q: U }", "extend union U = A"),
+                                       ("interface I { x: Int } type T implements I { x: Int } type Query { q: T }", "extend type T implements I")])
+            shift = max(0, (a_sdl.find("= A") + 2 if "= A" in a_sdl else a_sdl.find("implements I") + 11 if "implements" in a_sdl else 0)
+                        - (b_sdl.find("= A") + 2 if "= A" in b_sdl else b_sdl.find("implements I") + 11 if "implements" in b_sdl else 0))
+            sa = build_schema(Source(p1 + a_sdl, "A"))
+            sb = extend_schema(sa, parse(Source(p2 + " " * shift + b_sdl, "B")), assume_valid_sdl=True)
+            rs, pr = observe_multi(validate_schema(sb), "schema-validation-multi-source")
+            recs += rs; all_fmt += pr
+        except GraphQLError:
+            pass
     for base in corpus + V_DOCS:
         for k in range(n_var):
             texts.append(base if k == 0 else rewrite_terminators(base, rng))
